@@ -32,6 +32,24 @@ use bit_set::BitSet;
 type ClauseIdx = usize;
 type LitIdx = usize;
 
+/// modulus of the component hash: the Mersenne prime 2^127 - 1.  (Multiplying modulo 2^128, as
+/// `u128::wrapping_mul` does, is not a prime field: the unit group of Z/2^128 has a 2-adic
+/// filtration along which products of small primes that agree modulo 2^128 are easy to construct.)
+const HASH_MODULUS: u128 = (1 << 127) - 1;
+
+/// `a * w` modulo `HASH_MODULUS`, for `a < HASH_MODULUS` (double-and-add over the bits of `w`)
+fn hash_mul(a: u128, w: u128) -> u128 {
+    let (mut a, mut w, mut acc) = (a % HASH_MODULUS, w, 0u128);
+    while w > 0 {
+        if w & 1 == 1 {
+            acc = (acc + a) % HASH_MODULUS;
+        }
+        a = (a + a) % HASH_MODULUS;
+        w >>= 1;
+    }
+    acc
+}
+
 /// A data-structure for efficient implementation of unit propagation with CNFs.
 /// It implements a two-literal watching scheme.
 /// For instance, for the CNF:
@@ -313,7 +331,7 @@ impl SATSolver {
                 new_set.insert(clause_idx);
                 for (clause_lit, weight) in self.clauses[clause_idx].iter() {
                     if !self.top_state().model.is_set(clause_lit.label()) {
-                        hash = hash.wrapping_mul(*weight);
+                        hash = hash_mul(hash, *weight);
                     }
                 }
             }
@@ -333,7 +351,7 @@ impl SATSolver {
                 }
                 for (clause_lit, weight) in self.clauses[clause_idx].iter() {
                     if clause_lit.label() == lit.label() {
-                        hash = hash.wrapping_mul(*weight);
+                        hash = hash_mul(hash, *weight);
                         break;
                     }
                 }
